@@ -26,7 +26,7 @@ ASSUMPTIONS = [
 ]
 SHARD_TIMEOUT = {"quick": 600, "thorough": 3600}
 
-QUICK_ARCHS = ["zen1", "zen2", "spr", "hsw", "tx2", "n1", "v2", "a64fx"]
+QUICK_ARCHS = ["zen1", "zen2", "spr", "hsw", "snb", "tx2", "n1", "v2", "a64fx"]  # snb: the hidden_loads key is present but empty
 
 
 def floors(tier):
